@@ -78,7 +78,9 @@ impl Vector {
         }
         for i in 0..self.len() {
             // rel_diff only compares magnitudes, so values of opposite sign are checked first
-            if self[i] * other[i] < 0. || rel_diff(self[i], other[i]) > tol {
+            // (by their signs: the product of two tiny values underflows to zero)
+            let opposite = (self[i] < 0. && other[i] > 0.) || (self[i] > 0. && other[i] < 0.);
+            if opposite || rel_diff(self[i], other[i]) > tol {
                 return false;
             }
         }
